@@ -6,6 +6,7 @@ import io
 import itertools
 import json
 import os
+import sys
 
 from mc import core, world
 
@@ -31,7 +32,8 @@ ASSUMPTIONS = ['credentials derived from the token as the tool does (role '
 
 MENU = ['role:admin', 'role:member', 'rule:svc:base', 'rule:nope',
         'system_scope:all', 'system:all', 'project_id:%(project_id)s',
-        'user_id:%(user_id)s', 'is_admin:True', '@', '!', 'not role:admin',
+        'user_id:%(user_id)s', 'is_admin:True', 'is_admin:False', '@', '!',
+        'not role:admin',
         'role:member and project_id:%(project_id)s',
         'rule:svc:base or role:reader', 'domain_id:%(domain_id)s',
         'project_id:%(target.project.id)s', 'not rule:nope',
@@ -177,12 +179,33 @@ def one(acc, shell, enf, w, rules, tn, doc, is_admin, tg, rq):
     acc.ev()
     buf = io.StringIO()
     err = None
+    one.calls = getattr(one, 'calls', 0) + 1
+    via_main = one.calls % 5 == 0
     try:
         with contextlib.redirect_stdout(buf):
-            shell.tool(w.path('policy.yaml'), w.path('tok-%s.json' % tn), rq,
-                       is_admin,
-                       w.path('tgt-%s.json' % tg) if tg != 'none' else None)
-    except Exception as e:
+            if via_main:
+                # every fifth invocation through the console entry point
+                argv = ['oslopolicy-checker', '--policy',
+                        w.path('policy.yaml'), '--access',
+                        w.path('tok-%s.json' % tn)]
+                if rq:
+                    argv += ['--rule', rq]
+                if is_admin:
+                    argv += ['--is_admin']
+                if tg != 'none':
+                    argv += ['--target', w.path('tgt-%s.json' % tg)]
+                old_argv = sys.argv
+                sys.argv = argv
+                try:
+                    shell.main()
+                finally:
+                    sys.argv = old_argv
+            else:
+                shell.tool(w.path('policy.yaml'),
+                           w.path('tok-%s.json' % tn), rq, is_admin,
+                           w.path('tgt-%s.json' % tg) if tg != 'none'
+                           else None)
+    except (Exception, SystemExit) as e:
         err = '%s' % type(e).__name__
     got = buf.getvalue().splitlines()
     creds, target = derive(doc, is_admin, TARGETS[tg])
@@ -192,7 +215,7 @@ def one(acc, shell, enf, w, rules, tn, doc, is_admin, tg, rq):
         r = world.decide(enf, n, dict(target), copy.deepcopy(creds))
         exp.append('%s: %s' % ('passed' if r == ('ok', True) else 'failed', n))
     case = {'rules': rules, 'token': tn, 'is_admin': is_admin, 'target': tg,
-            'rule': rq}
+            'rule': rq, 'via_main': via_main}
     scope = tn.split('-')[0] if not tn.startswith('sample') else tn
     if err:
         acc.violation('raises|%s|requested=%s|default=%s' % (
